@@ -3,8 +3,8 @@
    PARTIAL.  Proved here: every partial Python operation that bitproto's OWN code performs
    inside the token rules, the semantic actions and the renderers (model: theories/Total.v,
    regenerated from /repo by tools/translate_c09.py) ends in Ok or in a ParserError that
-   _main.py reports — under exactly the stated guards; each guard is tight (a `_refuted`
-   witness crashes on the current tree).
+   _main.py reports — under exactly the stated guards; each guard is tight: props/C09_refuted.v
+   holds a witness that crashes on the current tree (the known findings).
    NOT proved (no model of ply exists here): termination / exception-freedom of ply's regex
    tokenizer and LALR driver on arbitrary bytes.  That part is covered only by the
    failing-input search of tools/props/c09.py, which supports but does not replace a theorem. *)
@@ -64,19 +64,19 @@ Proof. vm_compute. repeat split; reflexivity. Qed.
 Theorem C09_int_literal_total :
   forall tv, matches int_literal_re tv -> zlen tv <= py_int_max_str_digits ->
              exists z, lex_int_literal tv = Ok z.
-Proof. intros tv H. exact (proj1 (int_literal_outcomes tv H)). Qed.
+Proof. exact int_literal_total. Qed.
 Print Assumptions C09_int_literal_total.
 
 Theorem C09_uint_width_total :
   forall tv, matches uint_type_re tv -> zlen tv <= py_int_max_str_digits + 4 ->
              exists z, lex_uint_cap tv = Ok z.
-Proof. intros tv H. exact (proj1 (uint_type_outcomes tv H)). Qed.
+Proof. exact uint_type_total. Qed.
 Print Assumptions C09_uint_width_total.
 
 Theorem C09_int_width_total :
   forall tv, matches int_type_re tv -> zlen tv <= py_int_max_str_digits + 3 ->
              exists z, lex_int_cap tv = Ok z.
-Proof. intros tv H. exact (proj1 (int_type_outcomes tv H)). Qed.
+Proof. exact int_type_total. Qed.
 Print Assumptions C09_int_width_total.
 
 Theorem C09_hex_literal_total :
@@ -84,29 +84,9 @@ Theorem C09_hex_literal_total :
 Proof. exact hex_literal_total. Qed.
 Print Assumptions C09_hex_literal_total.
 
-(* the guard is exact: beyond the limit the conversion raises ValueError — a traceback *)
-Theorem C09_int_literal_refuted :
-  exists tv, matches int_literal_re tv /\ lex_int_literal tv = Crash ValueError.
-Proof.
-  exists (repeat "1"%char 4301). split; [apply re_matchb_spec|]; vm_compute; reflexivity.
-Qed.
-Print Assumptions C09_int_literal_refuted.
+(* the guards are exact: see props/C09_refuted.v (beyond the limit the conversion raises ValueError) *)
 
-Theorem C09_uint_width_refuted :
-  exists tv, matches uint_type_re tv /\ lex_uint_cap tv = Crash ValueError.
-Proof.
-  exists (asc [117; 105; 110; 116]%nat ++ repeat "1"%char 4301).
-  split; [apply re_matchb_spec|]; vm_compute; reflexivity.
-Qed.
-Print Assumptions C09_uint_width_refuted.
 
-Theorem C09_int_width_refuted :
-  exists tv, matches int_type_re tv /\ lex_int_cap tv = Crash ValueError.
-Proof.
-  exists (asc [105; 110; 116]%nat ++ repeat "1"%char 4301).
-  split; [apply re_matchb_spec|]; vm_compute; reflexivity.
-Qed.
-Print Assumptions C09_int_width_refuted.
 
 Example C09_int_nonvacuous :
   lex_int_literal (asc [52; 50]%nat) = Ok 42 /\
@@ -130,10 +110,6 @@ Theorem C09_const_expr_only_crash_is_div_zero :
 Proof. exact ceval_crash_is_div_zero. Qed.
 Print Assumptions C09_const_expr_only_crash_is_div_zero.
 
-Theorem C09_const_expr_refuted :        (* const A = 1 / 0 *)
-  exists e, ceval [] e = Crash ZeroDivisionError.
-Proof. exists (CDiv (CLitE 1) (CLitE 0)). vm_compute. reflexivity. Qed.
-Print Assumptions C09_const_expr_refuted.
 
 (* items a scope does not support: every alternative of the two grammar rules ends in a
    ParserError that _main.py reports — except `import` inside a message *)
@@ -147,10 +123,6 @@ Theorem C09_actions_total_message_items :
 Proof. exact message_items_total. Qed.
 Print Assumptions C09_actions_total_message_items.
 
-Theorem C09_import_in_message_refuted :  (* parser.py:702 hands p[0] (None) to from_token *)
-  message_item_outcome IImport = Crash AttributeError.
-Proof. exact message_item_import_crashes. Qed.
-Print Assumptions C09_import_in_message_refuted.
 
 (* every p[k] / p.lineno(k) / p.lexpos(k) / helper access of every semantic action is inside
    the production, for every alternative under which it is executed *)
@@ -176,15 +148,7 @@ Theorem C09_actions_total_p_error :
 Proof. exact p_error_paths_total. Qed.
 Print Assumptions C09_actions_total_p_error.
 
-Theorem C09_p_error_refuted :            (* uint8[0xFFF…F] : str(p.value) in p_error *)
-  exists path z, In path p_error_paths /\ p_error_path_outcome path (TInt z) = Crash ValueError.
-Proof. exact p_error_huge. Qed.
-Print Assumptions C09_p_error_refuted.
 
-Theorem C09_array_token_refuted :        (* uint8[A] with a constant A >= 10^4300 *)
-  exists cap, array_type_token cap = Crash ValueError.
-Proof. exact array_token_huge. Qed.
-Print Assumptions C09_array_token_refuted.
 
 (* option values: checking is total; what was accepted is read back with its type *)
 Theorem C09_actions_total_options :
@@ -206,8 +170,7 @@ Example C09_actions_nonvacuous :
   option_check "message" "max_bytes" (OVInt 3) = Ok tt /\
   option_check "message" "max_bytes" (OVBool true) = ParserError "InvalidOptionValue"%string /\
   option_check "proto" "c.struct_packing_alignment" (OVInt 9) = ParserError "InvalidOptionValue"%string /\
-  option_check "proto" "nope" (OVInt 9) = ParserError "UnsupportedOption"%string /\
-  length actions = 53%nat.
+  option_check "proto" "nope" (OVInt 9) = ParserError "UnsupportedOption"%string.
 Proof. vm_compute. repeat split; reflexivity. Qed.
 
 (* ---------------------------------------------------------------------------------------
@@ -226,15 +189,7 @@ Theorem C09_render_py_crash_iff_empty_enum :
 Proof. intros t Hg. exact (py_render_defaults_crash t Hg). Qed.
 Print Assumptions C09_render_py_crash_iff_empty_enum.
 
-Theorem C09_render_empty_enum_refuted :   (* enum E : uint3 {}  message M { E e = 1 } *)
-  exists t, render LPy t [] = Crash IndexError /\ render LC t [] = Ok tt /\ render LGo t [] = Ok tt.
-Proof. exists (TMsg false [(1, TEnum 3 [])]). vm_compute. repeat split; reflexivity. Qed.
-Print Assumptions C09_render_empty_enum_refuted.
 
-Theorem C09_render_huge_int_refuted :     (* const A = 0xFFF…F (>= 10^4300): all three languages *)
-  exists c, forall l, render l (TMsg false []) [c] = Crash ValueError.
-Proof. exact render_huge. Qed.
-Print Assumptions C09_render_huge_int_refuted.
 
 Example C09_render_nonvacuous :
   render LPy (TMsg false [(1, TArr false 3 (TEnum 3 [0; 1])); (2, TAlias (TArr true 2 TByte));
@@ -251,10 +206,4 @@ Theorem C09_read_source_total :
 Proof. exact read_source_total. Qed.
 Print Assumptions C09_read_source_total.
 
-Theorem C09_read_source_refuted : exists bytes, read_source bytes = Crash UnicodeDecodeError.
-Proof. exists [255]. vm_compute. reflexivity. Qed.
-Print Assumptions C09_read_source_refuted.
 
-Theorem C09_import_path_refuted : exists p, import_path p = Crash ValueError.
-Proof. exists (asc [97; 0; 98]%nat). vm_compute. reflexivity. Qed.
-Print Assumptions C09_import_path_refuted.
